@@ -279,6 +279,21 @@
 #  define ARDUINOJSON_USE_EXTENSIONS 0
 #endif
 
+#ifdef BBLANCHON_ARDUINOJSON_VERIF
+// Verification hooks: compiled only when the verification harness defines the
+// guard. The harness provides arduinojson_verif_event() and the inspector.
+struct ArduinoJsonVerifInspector;
+extern "C" void arduinojson_verif_event(int kind, const void* self,
+                                        unsigned long a, unsigned long b);
+#  define ARDUINOJSON_VERIF_EVENT(kind, self, a, b)   \
+    arduinojson_verif_event(kind, self, (unsigned long)(a), \
+                            (unsigned long)(b))
+#  define ARDUINOJSON_VERIF_FRIEND friend struct ::ArduinoJsonVerifInspector;
+#else
+#  define ARDUINOJSON_VERIF_EVENT(kind, self, a, b) ((void)0)
+#  define ARDUINOJSON_VERIF_FRIEND
+#endif
+
 #if defined(nullptr)
 #  error nullptr is defined as a macro. Remove the faulty #define or #undef nullptr
 // See https://github.com/bblanchon/ArduinoJson/issues/1355
